@@ -83,7 +83,7 @@ impl Prop for C02 {
     fn plan(&self, tier: Tier) -> Plan {
         match tier {
             Tier::Quick => Plan { runs: 9216, time_box_s: None, isolation: Isolation::Threads },
-            Tier::Thorough => Plan { runs: 400_000, time_box_s: Some(480), isolation: Isolation::Threads },
+            Tier::Thorough => Plan { runs: 3_000_000, time_box_s: Some(480), isolation: Isolation::Threads },
         }
     }
     fn generate(&self, rc: &RunCtx) -> WriterCase {
